@@ -104,6 +104,35 @@ func pure(acc *ev.Acc) {
 			acc.Violate(ev.Violation{Key: fmt.Sprintf("C16/mapclear/%d", mask), Msg: "MapClear: " + bad, Replay: map[string]any{"mode": "mapclear", "mask": mask}})
 		}
 	}
+	// MapClear on maps of every size 0..300 and around every power of two up to 2^17 (growth and strategy thresholds)
+	sizes := map[int]bool{}
+	for n := 0; n <= 300; n++ {
+		sizes[n] = true
+	}
+	for k := 8; k <= 17; k++ {
+		sizes[1<<k-1], sizes[1<<k], sizes[1<<k+1] = true, true, true
+	}
+	type named map[uint64]string
+	for n := range sizes {
+		m1 := map[uint64]uint64{}
+		m2 := named{}
+		for i := 0; i < n; i++ {
+			m1[uint64(i)*3] = uint64(i)
+			m2[uint64(i)] = "v"
+		}
+		alias := m1
+		machine.MapClear(m1)
+		machine.MapClear(m2)
+		acc.Add("mapclear_inputs", 2)
+		if len(m1) != 0 || len(m2) != 0 || len(alias) != 0 {
+			acc.Violate(ev.Violation{Key: fmt.Sprintf("C16/mapclear/size-%d", n), Msg: fmt.Sprintf("MapClear on maps of %d entries leaves %d / %d entries (alias of the first: %d)", n, len(m1), len(m2), len(alias)), Replay: map[string]any{"mode": "mapclear", "size": n}})
+			continue
+		}
+		m1[1] = 2
+		if len(alias) != 1 || alias[1] != 2 {
+			acc.Violate(ev.Violation{Key: fmt.Sprintf("C16/mapclear/size-%d/unusable", n), Msg: fmt.Sprintf("after MapClear on a map of %d entries an insert is not visible through another reference to the same map", n), Replay: map[string]any{"mode": "mapclear", "size": n}})
+		}
+	}
 	var nilmap map[uint64]uint64
 	if p := libh.Try(func() { machine.MapClear(nilmap) }); p != "" {
 		acc.Violate(ev.Violation{Key: "C16/mapclear/nil", Msg: "MapClear(nil map) panicked: " + p})
@@ -123,14 +152,19 @@ func pure(acc *ev.Acc) {
 // ---------------------------------------------------------------- WaitTimeout
 
 type WT struct {
-	Calls     int    `json:"calls"`     // consecutive WaitTimeout calls by the waiter (1 or 2)
-	Timeout   uint64 `json:"timeout"`   // ms
-	Timers    string `json:"timers"`    // "all", "none", "first" (only the first call's timer may fire)
-	Signaller string `json:"signaller"` // "", "signal", "broadcast", "signal-unlocked"
+	Calls     int    `json:"calls"`           // consecutive WaitTimeout calls by the waiter (1 or 2)
+	Timeout   uint64 `json:"timeout"`         // ms
+	Timers    string `json:"timers"`          // "all", "none", "first" (only the first call's timer may fire)
+	Signaller string `json:"signaller"`       // "", "signal", "broadcast", "signal-unlocked"
+	Other     bool   `json:"other,omitempty"` // another goroutine is already parked in a plain Wait loop on the same condition variable
 }
 
 func (w WT) ID() string {
-	return fmt.Sprintf("wt:calls=%d,timeout=%d,timers=%s,sig=%s", w.Calls, w.Timeout, w.Timers, w.Signaller)
+	id := fmt.Sprintf("wt:calls=%d,timeout=%d,timers=%s,sig=%s", w.Calls, w.Timeout, w.Timers, w.Signaller)
+	if w.Other {
+		id += ",other-waiter"
+	}
+	return id
 }
 
 func wtCase(w WT, bound int, deadline time.Time) mcx.Case {
@@ -154,7 +188,18 @@ func wtCase(w WT, bound int, deadline time.Time) mcx.Case {
 			cond := sync.NewCond(mu)
 			owner := ""
 			flag := false
+			otherFlag := false
 			var wg sync.WaitGroup
+			if w.Other {
+				// parked before the timed waiter starts (default order); its own condition never becomes true
+				csched.GoDaemon(func() {
+					mu.Lock()
+					for !otherFlag {
+						cond.Wait()
+					}
+					mu.Unlock()
+				})
+			}
 			wg.Add(1)
 			csched.Go(func() {
 				defer wg.Done()
@@ -251,6 +296,12 @@ func wtCases(tier string) []WT {
 			// non-initial state: the first call may time out; the second can only be woken by the signal
 			out = append(out, WT{Calls: 2, Timeout: to, Timers: "first", Signaller: sg})
 		}
+		// another goroutine waits on the same condition variable: the timed waiter must still
+		// return on its timer, or on a broadcast
+		out = append(out, WT{Calls: 1, Timeout: to, Timers: "all", Other: true})
+		out = append(out, WT{Calls: 2, Timeout: to, Timers: "all", Other: true})
+		out = append(out, WT{Calls: 1, Timeout: to, Timers: "none", Signaller: "broadcast", Other: true})
+		out = append(out, WT{Calls: 1, Timeout: to, Timers: "all", Signaller: "broadcast", Other: true})
 	}
 	return out
 }
@@ -319,7 +370,7 @@ func main() {
 	}
 	os.Exit(acc.Done(ev.Finish{
 		Prop: "C16", Tier: *tier, Level: "model_checking", Start: start,
-		Rule:        fmt.Sprintf("WaitTimeout (machine/prims.go and the primitive module it delegates to, with sync/time/channel operations routed to the controlled scheduler): caller holding the lock, its helper goroutine, a timer event that may fire at any point after time.After (or never, per scenario), a signaller doing Signal/Broadcast under the lock; 1 or 2 consecutive calls; timeouts 0, 1, 2^40 ms; every schedule with <= %d deviations; oracle: lock held and exclusive on return, no unlock of an unlocked mutex, the call returns in every execution of the timer-only and signal-only scenarios. Pure primitives: UInt64ToString on all n < 10^5 and all decimal/binary boundaries (digits only, no leading zero, parses back, injective), MapClear on all maps over a 4-key universe for 3 key types, Assume/Assert on both booleans", bound),
+		Rule:        fmt.Sprintf("WaitTimeout (machine/prims.go and the primitive module it delegates to, with sync/time/channel operations routed to the controlled scheduler): caller holding the lock, its helper goroutine, a timer event that may fire at any point after time.After (or never, per scenario), a signaller doing Signal/Broadcast under the lock; optionally another goroutine already parked in a Wait loop on the same condition variable; 1 or 2 consecutive calls; timeouts 0, 1, 2^40 ms; every schedule with <= %d deviations; oracle: lock held and exclusive on return, no unlock of an unlocked mutex, the call returns in every execution of the timer-only and signal-only scenarios. Pure primitives: UInt64ToString on all n < 10^5 and all decimal/binary boundaries (digits only, no leading zero, parses back, injective), MapClear on all maps over a 4-key universe for 3 key types and on maps of every size 0..300 and 2^k-1,2^k,2^k+1 up to 2^17 (named and unnamed map types, checked through an alias), Assume/Assert on both booleans", bound),
 		Assumptions: []string{"wall-clock bounds are decided only in their logical form: once the timer fired no further event is needed; after a signal no timer is needed", "the primitive module (v0.1.0 in the module cache) is instrumented by overlay exactly as it is"},
 		Extra:       mcx.Extra(acc, map[string]any{"deviation_bound": bound}),
 	}))
